@@ -92,7 +92,7 @@ def c_torch_history(ctx, args):
     return None
 
 
-CHECKS = {'torch_history': c_torch_history, 'roundtrip': c_roundtrip, 'backward_corr': c_backward_corr, 'maps_corr': c_maps_corr}
+CHECKS = {'respecify': __import__('props.C09', fromlist=['c_respecify']).c_respecify, 'torch_history': c_torch_history, 'roundtrip': c_roundtrip, 'backward_corr': c_backward_corr, 'maps_corr': c_maps_corr}
 
 
 def run(ctx):
@@ -133,6 +133,13 @@ def run(ctx):
         if it % 3 == 0:
             do(ctx, 'maps_corr', [N, prog], nontrivial=('m', it))
         ctx.res.count('mode%d_%s_%s' % (mode, cls, d))
+    # gates whose data is given again -- or whose generator object is updated in place by its owner -- after they were used: backward still undoes forward
+    for it in range(int(40 * B)):
+        N = rng.randint(1, 4)
+        k = rng.randint(1, N)
+        qs = sorted(rng.sample(range(N), k))
+        full = lambda: [[b for i in range(k) for b in rng.choice([(1, 0), (0, 1), (1, 1)])], rng.choice([0, 2])]
+        do(ctx, 'respecify', [N, qs, full(), full(), gen.rplist(rng, N, 4), ['generator_inplace', 'use_then_generator', 'compile_then_generator', 'generator_inplace'][it % 4], ['np', 'np', 'torch'][it % 3 if it % 2 else 0]], nontrivial=('rs', it))
     # the torch port: histories of forward / backward on ONE program object (lazily inverted maps must land in the right slot)
     for it in range(int(70 * B)):
         N = rng.randint(1, 4)
